@@ -205,6 +205,93 @@ def sequence_cases(tier):
     return out
 
 
+# ---------------------------------------------------- how a field is handed over
+FN_FA = 'mc.checks.c02_operator:case_assembly'
+FA_REPS = ('F', 'C', 'view', 'inplace')
+
+
+def case_assembly(c):
+    """The operator acts on the field the caller specified: a field assembled
+    through the component setters (fx, fy, fz) from arrays in any memory
+    layout is the field whose entry (i, j, k) is the array's entry
+    (i, j, k) - compared with Field(grid, data=vector) and with the
+    residual of the FIT reference."""
+    import emg3d
+    shape = tuple(c['shape'])
+    grid = zoo.mesh({'shape': shape, 'w': 'mix'})
+    r = zoo.rng('c02', 'assembly', shape, c['dtype'])
+    comps = []
+    for sh in (grid.shape_edges_x, grid.shape_edges_y, grid.shape_edges_z):
+        a = r.standard_normal(sh)
+        if c['dtype'] == 'complex':
+            a = a + 1j*r.standard_normal(sh)
+        comps.append(a)
+    vec = np.r_[tuple(a.ravel('F') for a in comps)]
+    ref = emg3d.Field(grid, data=vec.astype(complex if c['dtype'] ==
+                                            'complex' else float),
+                      frequency=c['freq'])
+
+    def rep(a):
+        k = c['rep']
+        if k == 'F':
+            return np.asfortranarray(a)
+        if k == 'C':
+            return np.ascontiguousarray(a)
+        if k == 'view':
+            big = np.zeros(tuple(2*n for n in a.shape), dtype=a.dtype)
+            big[::2, ::2, ::2] = a
+            return big[::2, ::2, ::2]
+        if k == 'list':
+            return a.tolist()
+        return a
+    f = emg3d.Field(grid, frequency=c['freq'],
+                    dtype=complex if c['dtype'] == 'complex' else float)
+    if c['rep'] == 'inplace':
+        f.fx[...] = comps[0]
+        f.fy[...] = comps[1]
+        f.fz[...] = comps[2]
+    else:
+        f.fx, f.fy, f.fz = rep(comps[0]), rep(comps[1]), rep(comps[2])
+    viol = []
+    if not np.array_equal(f.field, ref.field):
+        viol.append({'cls': 'field-from-setters-is-another-field',
+                     'what': f'{c}: field assembled through fx/fy/fz differs '
+                             'from Field(grid, data=...) of the same entries',
+                     'observed': f.field[:6], 'expected': ref.field[:6]})
+    for k, a in zip(('fx', 'fy', 'fz'), comps):
+        if not np.array_equal(getattr(f, k), a):
+            viol.append({'cls': 'field-from-setters-is-another-field',
+                         'what': f'{c}: {k}[i, j, k] is not the assigned '
+                                 'array[i, j, k]'})
+    # operator on that field vs the FIT reference acting on the entries
+    model = zoo.model(grid, {'case': 'VTI', 'prof': 'rnd', 'mu_r': True})
+    if c['dtype'] == 'complex' or c['freq'] < 0:
+        sfield = emg3d.Field(grid, frequency=c['freq'])
+        if c['dtype'] != 'complex':
+            sfield = emg3d.Field(grid, frequency=c['freq'], dtype=float)
+        res = emg3d.solver.residual(
+            emg3d.models.VolumeModel(model, sfield), sfield, f, norm=False)
+        res0 = emg3d.solver.residual(
+            emg3d.models.VolumeModel(model, sfield), sfield, ref, norm=False)
+        if not np.array_equal(res.field, res0.field):
+            viol.append({'cls': 'operator-acts-on-another-field',
+                         'what': f'{c}: residual of the setter-assembled '
+                                 'field differs from that of the same '
+                                 'entries given as vector'})
+    return {'viol': viol, 'compared': 5, 'transitions': 3,
+            'nontrivial': c['rep'] != 'F',
+            'outcome': (c['rep'], c['dtype'], bool(viol))}
+
+
+def assembly_cases(tier):
+    shapes = [(2, 3, 4), (3, 3, 3), (4, 2, 2)]
+    if tier != 'quick':
+        shapes += [(2, 2, 2), (5, 4, 3), (3, 4, 4)]
+    return [{'shape': sh, 'rep': rp, 'dtype': dt, 'freq': fr}
+            for sh in shapes for rp in FA_REPS
+            for dt, fr in (('complex', 1.3), ('real', -2.5))]
+
+
 def prepare(ctx):
     impl.warm()
 
@@ -227,6 +314,15 @@ def run(ctx):
                          'plain BaseMesh) x 3 models, all kept alive; every '
                          'operator checked after all were built',
                     time_cap=ctx.budget or (300 if ctx.quick else 900))
+    if ctx.wants('field-assembly'):
+        ctx.explore('field-assembly', FN_FA, assembly_cases(ctx.tier),
+                    engine='E1',
+                    rule='shapes x {complex f>0, real Laplace} x component '
+                         'arrays handed to the setters fx/fy/fz as F-ordered, '
+                         'C-ordered, strided view, or written '
+                         'in place: same field and same residual as '
+                         'Field(grid, data=vector)',
+                    time_cap=ctx.budget or 300)
     if not ctx.wants('operator'):
         return
     cs = cases(ctx.tier)
